@@ -947,3 +947,47 @@ def gap_scan_state(R, ctx, rid):
             R.ob(rid, fn, "state:" + site, not bad, "decided against %s" % (sorted(set(used)) or "no collection") if not bad else
                  "the delete is decided against %s: state from other gaps takes part in the duplicate test" % sorted(set(bad)), cs.loc())
     R.floor(rid, "mark deletions checked", n, 2)
+
+
+def string_column_units(R, ctx, rid):
+    Y = ctx.yrs
+    R.rule(rid, "R-TABLE the v2 string column counts one unit on both sides: StringEncoder::write announces the length of each string "
+                "in the unit StringDecoder::read_str consumes — the writer's count comes from `encode_utf16().count()` (UTF-16 code "
+                "units, what Yjs writes), the reader walks chars and subtracts `len_utf16()` per char from the announced length while "
+                "it advances the byte offset by `len_utf8()`. Counting chars or bytes on one side agrees for ASCII/BMP text and cuts "
+                "every string with a surrogate pair (emoji) short, shifting all later strings of the column")
+
+    def unit_of(t):
+        if term_has_call(t, "re:::encode_utf16$") or term_has_call(t, "re:::len_utf16$"):
+            return "utf16"
+        if term_has_call(t, "re:str>?::chars$") and term_has_call(t, "re:Iterator>?::count$"):
+            return "chars"
+        if term_has_call(t, "re:::len_utf8$") or term_has_call(t, "re:str>?::len$") or term_has_call(t, "re:::as_bytes$"):
+            return "bytes"
+        c = simp_deep(t)
+        if c[0] == "const":
+            return "chars"
+        return "?"
+    w = Y.fn("yrs::updates::encoder::StringEncoder::write")
+    wv = FnView(w)
+    ws = [c for c in w.calls() if re.search(r"UIntOptRleEncoder::write_u64$", c.name)]
+    R.floor(rid, "length writes in StringEncoder::write", len(ws), 1)
+    wu = {unit_of(wv.arg(c, 1, 14)) for c in ws}
+    r = Y.fn("yrs::updates::decoder::StringDecoder::read_str")
+    rv = FnView(r)
+    subs = [c for c in r.calls() if re.search(r"::(saturating_sub|checked_sub|wrapping_sub)$", c.name) and r.cfg().in_loop(c.bb)]
+    ru = {unit_of(rv.arg(c, 1, 10)) for c in subs}
+    for i, j, st in r.stmts():
+        rv_ = st["rv"]
+        if str(rv_.get("bin", "")).startswith("Sub") and r.cfg().in_loop(i):
+            ru.add(unit_of(rv.terms.operand(rv_["b"], 10)))
+    R.floor(rid, "consumption steps in StringDecoder::read_str", len(ru), 1)
+    adv = set()
+    for i, j, st in r.stmts():
+        rv_ = st["rv"]
+        if str(rv_.get("bin", "")).startswith("Add") and r.cfg().in_loop(i):
+            adv.add(unit_of(rv.terms.operand(rv_["b"], 10)))
+    ok = len(wu) == 1 and wu == ru and "?" not in wu
+    R.ob(rid, w, "unit", ok, "writer counts %s, reader consumes %s" % (sorted(wu), sorted(ru)) if ok else
+         "the writer announces lengths in %s but the reader consumes %s: strings with characters outside that agreement are cut" % (sorted(wu), sorted(ru)))
+    R.ob(rid, r, "offset", adv == {"bytes"}, "the reader advances its slice offset in %s (must be bytes: it slices a &str)" % sorted(adv))
